@@ -303,14 +303,20 @@ func (b *Bucket) DeleteBucket(key []byte) (err error) {
 
 	// Recursively delete all child buckets.
 	child := b.Bucket(newKey)
+	// Collect the nested bucket names first: deleting while iterating would
+	// modify the node the cursor is walking and skip entries.
+	var nested [][]byte
 	err = child.ForEachBucket(func(k []byte) error {
-		if err := child.DeleteBucket(k); err != nil {
-			return fmt.Errorf("delete bucket: %s", err)
-		}
+		nested = append(nested, cloneBytes(k))
 		return nil
 	})
 	if err != nil {
 		return err
+	}
+	for _, k := range nested {
+		if err := child.DeleteBucket(k); err != nil {
+			return fmt.Errorf("delete bucket: %s", err)
+		}
 	}
 
 	// Remove cached copy.
